@@ -623,7 +623,13 @@ package parser
 //@   ensures [lt] old(p.current.Type) != TokenEOF ==> MuLt(p)
 //@   modifies p.current, p.errors, p.defaultYear, p.lexer.pos, p.lexer.column, p.lexer.line, p.lexer.atStart
 
+// Ghost attributes of a parsed journal (C11): the text it was parsed from and the parse errors returned with it.
+// They are defined by Parse for the fresh journal it returns and never change afterwards.
+//@ specfun parsedFrom(j *ast.Journal) string
+//@ specfun nErrs(j *ast.Journal) int
+
 //@ func Parse
-//@   props C06
+//@   props C06 C11
+//@   ghostdef [parsed_from] parsedFrom(result0) == input && nErrs(result0) == len(result1)
 //@   ensures [nonnil] result0 != nil && fresh(result0)
 //@   ensures [C08:errpos] forall k int :: {result1[k]} 0 <= k && k < len(result1) ==> PosIn(result1[k].Pos, len(input))
